@@ -129,7 +129,7 @@ def run(chk):
     broken = bool(chk.proof_broken or chk.corr_disagreements)
     if broken:
         n *= 4
-    specs = pitcheck.specs_for(chk, n, {'excl': True, 'p_excl': .2, 'unsupported': True, 'unsupported_every': 10})
+    specs = pitcheck.specs_for(chk, n, {'excl': True, 'p_excl': .2, 'unsupported': True, 'unsupported_every': 10, 'reuse': True})
     for r, assigns in pitcheck.run_nets(chk, specs):
         if r.get('harness_error'):
             raise RuntimeError('harness error on %s: %s %s' % (r['spec'], r['harness_error'], r.get('tb')))
@@ -137,6 +137,10 @@ def run(chk):
             continue        # C09's business (depthwise fed by a concat)
         tl, tw = [], []
         for a, head, rows in assigns:
+            if head.get('err') == 'no-request':       # a layer invoked twice: oracle only
+                chk.count((tuple(r['prog']), a['style'], r['spec']['seed']), nontrivial=True, bucket='net:layer-invoked-twice')
+                _oracle_net(chk, r, a, {})
+                continue
             if 'err' in head:
                 continue
             sup = head.get('sup') == '1'
